@@ -155,7 +155,7 @@ func (g *gen) Literal(tr *hx.TRef, label string, depth int) hx.Val {
 	case "ID":
 		return hx.Str(rapid.SampledFrom([]string{"id-1", "x", "42"}).Draw(t, label+"id"))
 	case "Time":
-		return hx.Str(rapid.SampledFrom([]string{"2020-01-02T03:04:05Z", "1999-12-31T23:59:59.123456789Z"}).Draw(t, label+"tm"))
+		return hx.Str(rapid.SampledFrom([]string{"2020-01-02T03:04:05Z", "1999-12-31T23:59:59.123456789Z", "2021-03-04T05:06:07.5+02:00", "2024-02-29T12:00:00-07:30", "2000-01-01T00:30:00+01:00"}).Draw(t, label+"tm"))
 	}
 	return hx.Str(g.text(label + "s"))
 }
@@ -549,6 +549,10 @@ func GenFull(t *rapid.T, o Opts) *hx.Schema {
 		if subName != "" {
 			s.ExtRoots["subscription"] = subName
 		}
+	}
+	if !explicit && rapid.IntRange(0, 2).Draw(t, "impliedSchemaGivenDirectives") == 0 {
+		// the implied schema is given directive uses by an extension
+		s.ExtRootDirs = g.dirUses("SCHEMA", "schemaextdu")
 	}
 	// shuffle definition order
 	s.Types = rapid.Permutation(s.Types).Draw(t, "typeOrder")
